@@ -21,7 +21,7 @@ void mutex_lock(const void *m);                       // point("lock") enabled o
 bool mutex_try_lock(const void *m);
 void mutex_unlock(const void *m);
 // condition variables: returns 0 = notified, 1 = timeout, 2 = spurious.  `timed`: a timeout action is allowed.
-int cv_wait(const void *cv, const void *m, bool timed);
+int cv_wait(const void *cv, const void *m, bool timed, uint64_t dur_ns = 0);   // a timeout wake-up advances the virtual clock by dur_ns
 void cv_notify(const void *cv, bool all);
 void thread_join_point(int tid);                      // enabled when thread `tid` finished
 uint64_t now_ns();                                    // virtual steady clock
@@ -45,5 +45,6 @@ void name_value(uint64_t v, const std::string &name); // pointers printed as nam
 std::string val_name(uint64_t v);
 void reset();                                         // forget threads/objects (all threads must be finished)
 // run every unfinished thread to completion round-robin (used to drain at the end of a case); returns false if stuck
-bool drain(int max_steps, std::string *trace = nullptr);
+// `ignore`: a thread that need not finish (e.g. a worker that runs until shutdown); it is still stepped
+bool drain(int max_steps, std::string *trace = nullptr, int ignore = -1);
 }  // namespace detsched
